@@ -540,7 +540,25 @@ def extra_names() -> list[str]:
         "a/../../root1/x.html", "x.html/..", "x.html/../x.html", "x.html/../../secret.txt",
         "../x.liquid", "../x", "../../x", "a/../../a/x.html", "..", "../", "../..", "a/..", "a/../",
     ]
+    # unicode compatibility look-alikes of '.' and '/': each is an ordinary character of a segment name, so none
+    # of these names exists - unless something normalises the name after it was validated
+    walks = [n for n in out if ".." in n and MARK not in n][:24]
+    for n in walks:
+        for dots in LOOKALIKE_DOTS:
+            out.append(n.replace("..", dots))
+        for slash in LOOKALIKE_SLASHES:
+            out.append(n.replace("/", slash))
+        out.append(n.replace("..", LOOKALIKE_DOTS[0]).replace("/", LOOKALIKE_SLASHES[0]))
+    for rel in ("base/secret.txt", "elsewhere/x.html", f"{P}/secret.txt", "base/root1/x.html"):
+        out.append(f"{MARK_FW}\uff0f{rel.replace('/', chr(0xff0f))}")
+        out.append(f"{MARK_FW}/{rel}")
+        out.append(f"\uff0f{MARK.strip('<>')}/{rel}")
     return out
+
+
+LOOKALIKE_DOTS = ["\u2025", "\u2024\u2024", "\uff0e\uff0e", ".\uff0e", "\u2024.", "\u3002\u3002"]
+LOOKALIKE_SLASHES = ["\uff0f", "\u2215", "\u2044", "\u29f8"]
+MARK_FW = "<TF>"  # the sandbox path with every '/' written as U+FF0F FULLWIDTH SOLIDUS
 
 
 def control_names() -> list[str]:
@@ -568,7 +586,7 @@ ENUM_CONFIGS = [
 RANDOM_SEGS = SEGS + [
     "root1", "root2", "base", "elsewhere", "pkgs", PKG, "tpl1", "tpl2", "root1x", "__init__.py", "x.liquid",
     "a.html", "secret", "x.HTML", "...", "....", ". .", ".. ", " ..", " ", "..\\", "\\..", "\\", "..\\..",
-    "%2e%2e", "%2f", "\uff0e\uff0e", "\u2025", "\u2024\u2024", "\u2215", "\uff0f", "..\x00", "\x00", "\x00.html",
+    "%2e%2e", "%2f", "\uff0e\uff0e", "\u2025", "\u2024\u2024", "\u2215", "\uff0f", "\u2025", "\uff0f", MARK_FW, "..\x00", "\x00", "\x00.html",
     "~", "~root", "$HOME", "${x}", "C:", "c:\\", "file:", "x.", ".x", ".html", "x.html.", "x..html", U + ".html",
     "u\u0308\u65e5", "'", '"', "{{", "%}", "\n", "a" * 300, MARK, MARK.strip("<>"),
 ]
@@ -610,6 +628,7 @@ def random_case(draw: Any) -> dict[str, Any]:
         "order": draw(st.integers(0, 1)),
         "modes": draw(st.sampled_from([["sync"], ["async"], ["sync", "async"]])),
         "accesses": draw(st.lists(st.sampled_from(ACCESSES), min_size=1, max_size=4, unique=True)),
+        "pre_roots": draw(st.sampled_from([None, None, None, [0], [1], [0, 1]])),
     }
 
 
@@ -668,6 +687,14 @@ class C13(Prop):
         for name in fixed:
             for cfg in ENUM_CONFIGS:
                 yield self._case(name, cfg)
+        # histories across loader objects: a neighbour with other search paths loads the name first
+        for name in control_names():
+            for kind in KINDS:
+                for ext in (None, ".html"):
+                    for roots, pre in (([1], [0]), ([0], [1]), ([1], [0, 1])):
+                        case = self._case(name, {"kind": kind, "roots": roots, "ext": ext, "order": 0})
+                        case["pre_roots"] = pre
+                        yield case
         # grammar names: thorough = every configuration; quick = every loader kind, and for each kind two
         # of the four (search paths, extension) combinations, complementary and alternating with the name
         index = 0
@@ -715,7 +742,7 @@ class C13(Prop):
         res.evaluations = 0
         sb = sandbox()
         tdir = sb.dir
-        name: str = case["name"].replace(MARK, tdir)
+        name: str = case["name"].replace(MARK_FW, tdir.replace("/", "\uff0f")).replace(MARK, tdir)
         kind_name = KIND_NAMES[case["kind"]]
         cls = classify(name)
         roots = configured_roots(case)
@@ -746,6 +773,15 @@ class C13(Prop):
                 where = f"name={name!r} loader={kind_name} roots={roots} ext={case.get('ext')!r} {mode} {access}"
                 res.evaluations += 1
                 env.loader = build_loader(case, tdir)  # a fresh loader (and cache) for every evaluation
+                if case.get("pre_roots") is not None:
+                    # a neighbour: another loader object of the same kind over other directories is asked for
+                    # the same name first; what it found is none of this loader's business
+                    other = dict(case, roots=case["pre_roots"])
+                    try:
+                        make_env(loader=build_loader(other, tdir)).get_template(name)
+                    except Exception:  # noqa: BLE001, S110
+                        pass
+                    res.labels.append("neighbour-loader")
                 try:
                     tmpl, data = prepare(env, access, name)
                 except _LiteralMismatch:
